@@ -5,8 +5,11 @@
 package c12
 
 import (
+	"context"
 	"encoding/json"
+	"errors"
 	"fmt"
+	"net"
 	"reflect"
 	"sort"
 	"strconv"
@@ -30,14 +33,16 @@ type HPlan struct {
 }
 
 type Exch struct {
-	Size      int   `json:"size,omitempty"` // packed request size (0 = minimal)
-	Compress  bool  `json:"compress,omitempty"`
-	H         HPlan `json:"h"`
-	TimeoutMs int   `json:"timeout_ms"`
-	ReadTOMs  int   `json:"read_to_ms,omitempty"` // Client.ReadTimeout / WriteTimeout are set as well, to another value: Client.Timeout overrides them
-	API       int   `json:"api,omitempty"`        // 0 ExchangeWithConn, 1 ExchangeWithConnContext(ctx deadline), 2 WriteMsg+ReadMsg
-	CliUDP    int   `json:"cli_udp,omitempty"`    // udp: Client.UDPSize / Conn.UDPSize (0 = the library's default of 512 octets)
-	OptSize   int   `json:"opt_size,omitempty"`   // udp: the query carries an OPT record advertising this receive size (0 = no OPT)
+	Size      int    `json:"size,omitempty"` // packed request size (0 = minimal)
+	Compress  bool   `json:"compress,omitempty"`
+	H         HPlan  `json:"h"`
+	TimeoutMs int    `json:"timeout_ms"`
+	ReadTOMs  int    `json:"read_to_ms,omitempty"` // Client.ReadTimeout / WriteTimeout are set as well, to another value: Client.Timeout overrides them
+	API       int    `json:"api,omitempty"`        // 0 ExchangeWithConn, 1 ExchangeWithConnContext(ctx deadline), 2 WriteMsg+ReadMsg, 3 Exchange (the library dials, exchanges, closes), 4 ExchangeContext; 3 and 4 need the socket seam of the instrumented build and fall back to 0 and 1 without it
+	Dial      string `json:"dial,omitempty"`       // API 3/4: "" the connection is there after DialMs | refused | blackhole (no answer to the connection attempt: the dial must give up by the exchange's deadline)
+	DialMs    int    `json:"dial_ms,omitempty"`    // API 3/4: simulated time the connection attempt takes
+	CliUDP    int    `json:"cli_udp,omitempty"`    // udp: Client.UDPSize / Conn.UDPSize (0 = the library's default of 512 octets)
+	OptSize   int    `json:"opt_size,omitempty"`   // udp: the query carries an OPT record advertising this receive size (0 = no OPT)
 }
 
 type Client struct {
@@ -168,6 +173,13 @@ func Gen(seed uint64, tier string) any {
 		ne := 1 + r.IntN(maxe)
 		for j := 0; j < ne; j++ {
 			e := Exch{Compress: core.Chance(r, 50), API: r.IntN(3)}
+			if core.Chance(r, 25) {
+				e.API = 3 + r.IntN(2)
+				e.DialMs = core.Pick(r, 0, 1, 30, 400)
+				if core.Chance(r, 20) {
+					e.Dial = core.Pick(r, "refused", "blackhole")
+				}
+			}
 			e.Size = pickSize(r, tier)
 			if c.Net == "udp" && e.Size > sc.UDPSize {
 				e.Size = sc.UDPSize
@@ -374,8 +386,9 @@ type run struct {
 	lifeFin   bool
 	serveRet  int
 	doneSeq   int
-	rawConn   map[int]bool       // client connections the harness writes octet by octet
-	connReply map[string][]*wrec // server-side remote address -> replies handlers handed to the writer there, in order of hand-over
+	dialed    map[string]*dialRec // exchanges that go through the library's own dial
+	rawConn   map[int]bool        // client connections the harness writes octet by octet
+	connReply map[string][]*wrec  // server-side remote address -> replies handlers handed to the writer there, in order of hand-over
 }
 
 // wrec is one reply a handler handed to its ResponseWriter.
@@ -634,6 +647,86 @@ func (x *run) scribble(ex *exState) {
 	}
 }
 
+// --- the socket seam: connections the library dials itself
+
+// dialTag travels in net.Dialer.LocalAddr and tells the seam which exchange is dialling.
+type dialTag struct{ ci, ei int }
+
+func (dialTag) Network() string  { return "sim" }
+func (t dialTag) String() string { return tok(t.ci, t.ei) }
+
+type dialRec struct {
+	plan     Exch
+	home     int
+	attempts int
+	doneT    time.Time // when the connection attempt returned
+	sconn    *simnet.StreamConn
+	dconn    *simnet.DgramConn
+}
+
+//go:norace
+func (x *run) dial(d *net.Dialer, ctx context.Context, network, addr string) (net.Conn, error) {
+	k := x.k
+	tag, _ := d.LocalAddr.(dialTag)
+	k.Lock()
+	rec := x.dialed[tag.String()]
+	if rec != nil {
+		rec.attempts++
+	}
+	k.Unlock()
+	if rec == nil {
+		return nil, errors.New("dial: not an exchange of this run")
+	}
+	// what bounds the attempt: the dialer's own timeout and the context
+	var limit time.Time
+	if d.Timeout > 0 {
+		limit = time.Now().Add(d.Timeout)
+	}
+	if !d.Deadline.IsZero() && (limit.IsZero() || d.Deadline.Before(limit)) {
+		limit = d.Deadline
+	}
+	if dl, ok := ctx.Deadline(); ok && (limit.IsZero() || dl.Before(limit)) {
+		limit = dl
+	}
+	k.Yield("dial."+network, 0)
+	wait := time.Duration(rec.plan.DialMs) * time.Millisecond
+	if rec.plan.Dial == "blackhole" {
+		wait = 24 * time.Hour
+		k.Bump("fault.dial_blackholed")
+	}
+	if !limit.IsZero() && time.Now().Add(wait).After(limit) {
+		if rest := time.Until(limit); rest > 0 {
+			k.Sleep("dial.wait", rest)
+		}
+		return nil, &net.OpError{Op: "dial", Net: network, Err: timeoutError{}}
+	}
+	if wait > 0 {
+		k.Sleep("dial.wait", wait)
+	}
+	if rec.plan.Dial == "refused" {
+		k.Bump("fault.dial_refused")
+		return nil, &net.OpError{Op: "dial", Net: network, Err: errors.New("connect: connection refused")}
+	}
+	if strings.HasPrefix(network, "udp") {
+		c := x.n.DialUDP(x.uc, rec.home%x.homes)
+		k.Lock()
+		rec.dconn, rec.doneT = c, time.Now()
+		k.Unlock()
+		return c, nil
+	}
+	c := x.n.Dial(x.l, true)
+	k.Lock()
+	rec.sconn, rec.doneT = c, time.Now()
+	k.Unlock()
+	return c, nil
+}
+
+type timeoutError struct{}
+
+func (timeoutError) Error() string   { return "i/o timeout" }
+func (timeoutError) Timeout() bool   { return true }
+func (timeoutError) Temporary() bool { return true }
+
 // --- clients
 
 type clientTask struct {
@@ -732,7 +825,88 @@ func (c *clientTask) RunEvent(time.Time) {
 		}
 		var r *dns.Msg
 		var err error
-		switch e.API {
+		api := e.API
+		if api >= 3 && (!common.DialSeam() || plan.Pipeline) {
+			api -= 3
+		}
+		if api >= 3 {
+			// the library makes, uses and closes the connection itself
+			x.bump("cover.exchange_through_dial")
+			cl.Net = plan.Net
+			// a caller-supplied Dialer replaces the one the client would derive from its Timeout:
+			// give it the same bound (always, where nothing else would end a black-holed attempt)
+			cl.Dialer = &net.Dialer{LocalAddr: dialTag{c.ci, ei}}
+			if (c.ci+ei)%2 == 0 || e.Dial == "blackhole" {
+				cl.Dialer.Timeout = cl.Timeout
+			}
+			k.Lock()
+			x.dialed[tok(c.ci, ei)] = &dialRec{plan: e, home: plan.Home}
+			k.Unlock()
+			addr := "10.0.0.1:53"
+			if api == 4 {
+				ctx := common.NewCtx(k, time.Duration(e.TimeoutMs)*time.Millisecond/2, "cli")
+				if dl, ok := ctx.Deadline(); ok {
+					deadline = dl
+				}
+				r, _, err = cl.ExchangeContext(ctx, m, addr)
+			} else {
+				r, _, err = cl.Exchange(m, addr)
+			}
+			k.Lock()
+			d := x.dialed[tok(c.ci, ei)]
+			k.Unlock()
+			// the deadline of the exchange proper is set when the connection is there (the timeout
+			// bounds the dial and, again, the write and read that follow); a context bounds both
+			if !d.doneT.IsZero() {
+				if dl := d.doneT.Add(cl.Timeout); api == 3 || dl.Before(deadline) {
+					deadline = dl
+				}
+			} else if api == 3 {
+				// no connection: only the dialer's own timeout bounds the attempt
+				deadline = start.Add(24 * time.Hour)
+				if cl.Dialer.Timeout > 0 {
+					deadline = start.Add(cl.Dialer.Timeout)
+				}
+			} else if cl.Dialer.Timeout > 0 && start.Add(cl.Dialer.Timeout).Before(deadline) {
+				deadline = start.Add(cl.Dialer.Timeout)
+			}
+			x.bump("oracle.X2_deadline_respected")
+			if over := time.Since(deadline); over > time.Millisecond {
+				k.Lock()
+				x.res.Fail("X2", "deadline-overrun", "Exchange of %s over %s (dial %q, %d ms) returned %v after its deadline (timeout %d ms, context %v)", ex.token, plan.Net, e.Dial, e.DialMs, over, e.TimeoutMs, api == 4)
+				k.Unlock()
+			}
+			out := "dial-failed"
+			switch {
+			case d.attempts != 1:
+				k.Lock()
+				x.res.Fail("X1", "dial-count", "Exchange of %s made %d connection attempts, want exactly one", ex.token, d.attempts)
+				k.Unlock()
+			case d.sconn == nil && d.dconn == nil:
+				// no connection came about: an error, and nothing reached the server
+				x.bump("oracle.X1_failed_dial_reported")
+				if err == nil {
+					k.Lock()
+					x.res.Fail("X1", "reply-without-connection", "Exchange of %s returned a reply although its connection attempt failed (%s)", ex.token, e.Dial)
+					k.Unlock()
+				}
+			default:
+				nreads := 0
+				out = x.judgeExchange(ex, plan.Net, d.sconn, d.dconn, 0, &nreads, r, err, deadline)
+				x.bump("oracle.X1_dialled_connection_closed")
+				if (d.sconn != nil && !d.sconn.IsClosed()) || (d.dconn != nil && !d.dconn.IsClosed()) {
+					k.Lock()
+					x.res.Fail("X1", "dialled-connection-left-open", "Exchange of %s returned (%v) and left the connection it had dialled open", ex.token, err)
+					k.Unlock()
+				}
+			}
+			k.Lock()
+			ex.done, ex.outcome = true, out
+			k.EffectLocked("cli " + ex.token + " " + out)
+			k.Unlock()
+			continue
+		}
+		switch api {
 		case 1:
 			ctx := common.NewCtx(k, time.Duration(e.TimeoutMs)*time.Millisecond/2, "cli")
 			if dl, ok := ctx.Deadline(); ok {
@@ -756,7 +930,7 @@ func (c *clientTask) RunEvent(time.Time) {
 			x.res.Fail("F1", "valid-size-refused", "the client refused to send a %d-octet request as too large", len(b))
 			k.Unlock()
 		}
-		if e.API != 2 {
+		if api != 2 {
 			x.bump("oracle.X2_deadline_respected")
 			if over := time.Since(deadline); over > time.Millisecond {
 				k.Lock()
@@ -1234,7 +1408,10 @@ func runExchange(sc *Scenario, res *core.Result, verbose bool) {
 	d, j := time.Duration(sc.DelayMs)*time.Millisecond, time.Duration(sc.JitterMs)*time.Millisecond
 	n.Stream = simnet.StreamLink{MinDelay: d, Jitter: j, SegMode: sc.SegMode, ShortRead: sc.ShortRead}
 	n.Dgram = simnet.DgramLink{MinDelay: d, Jitter: j, Drop: sc.Drop, Dup: sc.Dup}
-	x := &run{sc: sc, k: k, n: n, res: res, ex: map[string]*exState{}, cliFin: make([]bool, len(sc.Clients)), connReply: map[string][]*wrec{}, rawConn: map[int]bool{}}
+	x := &run{sc: sc, k: k, n: n, res: res, ex: map[string]*exState{}, cliFin: make([]bool, len(sc.Clients)), connReply: map[string][]*wrec{}, rawConn: map[int]bool{}, dialed: map[string]*dialRec{}}
+	if common.DialSeam() {
+		defer common.InstallSockets(&common.Sockets{Dial: x.dial})()
+	}
 	x.l = n.Listen()
 	x.homes = 1
 	if sc.UDPSock && common.UDPSeam && sc.Homes > 1 {
